@@ -259,6 +259,16 @@ pub fn run(ctx: &Ctx) -> i32 {
       }
     }
   }
+  // family B: many tied hits spread over several segments, so that one request merges more than
+  // 20 candidates (segments x (page size + 1)) - small-slice sorts hide unstable merges
+  for (n, lay) in [(24usize, vec![6usize, 6, 6, 6]), (24, vec![8, 8, 8]), (24, vec![12, 12]), (22, vec![22])] {
+    let idx: Vec<usize> = (0..n).map(|i| [0usize, 1, 2][i % 3]).collect();
+    worlds.push(mk_world(&idx, &lay));
+    if !quick {
+      let idx2: Vec<usize> = (0..n).map(|i| [0usize, 3, 4, 5][i % 4]).collect();
+      worlds.push(mk_world(&idx2, &lay));
+    }
+  }
   let plans = sort_plans();
   let qs = queries();
   let execs = ["bm25", "wand", "bmw"];
@@ -313,6 +323,7 @@ pub fn run(ctx: &Ctx) -> i32 {
     "rule" => "worlds = every multiset of n tie-prone document shapes (equal texts, equal / missing / multi-valued sort values) x every segment layout; cases = world x 3 queries x 8 sort plans x {bm25,wand,bmw} x page size 1..n; a case is non-trivial when its cursor walk has at least 3 pages. Oracle: concatenated pages = one limit n+1 response (ids, order, scores), no duplicate, last page has no next_cursor, total_hits_estimate <= true matches (== for bm25); every cursor is rejected (Err, not panic) under every other sort plan, after a commit that adds a segment and after compaction.",
     "worlds" => worlds.len(),
     "doc_counts" => n_docs,
+    "large_tie_worlds" => "24 / 22 documents cycling over tie-prone shapes in layouts [6,6,6,6], [8,8,8], [12,12], [22]",
     "cursor_misuse_presentations" => misuse.load(Ordering::Relaxed),
     "distinct_observed_outcomes" => outcomes.lock().len(),
     "cap_hit" => if to { Some(format!("wall budget {deadline}s")) } else { None },
